@@ -76,7 +76,6 @@ def close_over_callees(template_text, stderr):
     names = []
     for m in _re.finditer(r"cannot find (function|value|type|macro|struct, variant or union type|function, tuple struct or tuple variant) `([A-Za-z_][A-Za-z0-9_]*)`", stderr):
         if m.group(2) not in names: names.append(m.group(2))
-    if not names: return template_text, []
     lines = template_text.split("\n")
     files = []
     for ln in lines:
@@ -98,6 +97,22 @@ def close_over_callees(template_text, stderr):
                     lines.insert(i, "//@item " + sel + "   // auto-added: same-file callee")
                     added.append(sel); break
             break
+    # methods: `no method named X found for ... T` / `no function or associated item named X found for struct T`: when the template pulls
+    # methods of `impl T` one by one (inside an impl wrapper it writes itself), add the missing one next to the first of them
+    for m in _re.finditer(r"no (?:method|function or associated item) named `([A-Za-z_][A-Za-z0-9_]*)` found for [^`]*`&?(?:mut )?(?:[A-Za-z_0-9]+::)*([A-Za-z_][A-Za-z0-9_]*)(?:<[^`]*)?`", stderr):
+        meth, ty = m.group(1), m.group(2)
+        for i, ln in enumerate(lines):
+            mm = _re.match(r"(\s*)//@item\s+(\S+\.rs)\s+::\s+(impl(?:<[^:]*>)?\s+%s\b[^:]*?)\s+::\s+fn\s+\w+" % _re.escape(ty), ln)
+            if not mm: continue
+            sel = "%s :: %s :: fn %s" % (mm.group(2), mm.group(3).strip(), meth)
+            if any(sel in l for l in lines): break
+            try:
+                from .extract import select
+                select(sel)
+            except Exception:
+                continue
+            lines.insert(i, mm.group(1) + "//@item " + sel + "   // auto-added: method of the same impl")
+            added.append(sel); break
     return "\n".join(lines), added
 
 # --------------------------------------------------------------------------- Verus
